@@ -191,8 +191,11 @@ class NativeRunner:
         env = {}
         from pyvc.values import Ty
         for name, ty in self.params.items():
+            pools = self.spec.get("pools", {}) if isinstance(self.spec, dict) else {}
             if cex is not None and name in cex.get("params", {}):
                 env[name] = from_cex(cex["params"][name])
+            elif name in pools:
+                env[name] = rng.choice(pools[name])
             elif isinstance(ty, Ty):
                 env[name] = gen_value(rng, ty, i)
             elif isinstance(ty, tuple) and ty and ty[0] == "const":
@@ -326,7 +329,9 @@ def crosscheck(prop, root, seed, n):
     for c in cs:
         cases = range(len(c.cases)) if c.cases else [None]
         for case in cases:
-            name = "%s:%s%s" % (c.rel, c.qual, "" if case is None else "[case%d]" % case)
+            vs = reg.contracts.get((c.rel, c.qual), [])
+            name = "%s:%s%s%s" % (c.rel, c.qual, ("[v%d]" % vs.index(c)) if len(vs) > 1 else "",
+                                  "" if case is None else "[case%d]" % case)
             rec = {"evaluations": 0, "skipped_pre": 0, "failures": [], "noteval": 0, "distinct": 0, "error": None,
                    "sample": None}
             try:
@@ -359,8 +364,14 @@ def replay(path, root):
     with open(path) as f:
         rp = json.load(f)
     reg, cs = contracts_for(rp["property"])
+    import re as _re
+    mv = _re.search(r"\[v(\d+)\]", rp.get("obligation", ""))
+    want_v = int(mv.group(1)) if mv else None
     for c in cs:
         if c.rel == rp["function"]["rel"] and c.qual == rp["function"]["qual"]:
+            vs = reg.contracts.get((c.rel, c.qual), [])
+            if want_v is not None and vs.index(c) != want_v:
+                continue
             break
     else:
         return {"reproduced": False, "why": "no native harness for this function"}
